@@ -92,7 +92,7 @@ fn harnesses() -> Vec<Harness> {
     Harness {
       name: "H3 mixed walkers (provider lock -> memo lock nesting)",
       threads: vec![vec![Q::LunarOfSolar(2021, 2, 20), Q::EightChar(2021, 2, 3, 23)], vec![Q::EightChar(2021, 2, 3, 23), Q::SolarOfLunar(2021, 1, 9)], vec![Q::ChildLimit(1989, 12, 31, 23, true)]],
-      bounds: vec![Some(0), Some(1), Some(2)],
+      bounds: vec![Some(0), Some(1), Some(2), Some(3)],
       thorough_only: false,
     },
     Harness {
@@ -100,10 +100,16 @@ fn harnesses() -> Vec<Harness> {
       // so only refusals reported as Err are raced here; panicking refusals are decided by the sequential explorer
       name: "H4 refused (Err) requests race with valid ones",
       threads: vec![vec![Q::LunarDayNew(1, 12, 31), a], vec![b, Q::SolarDayNew(2021, 2, 30), a], vec![Q::LunarDayNew(11, 2, 0), b]],
-      bounds: vec![Some(0), Some(1), Some(2)],
+      bounds: vec![Some(0), Some(1), Some(2), Some(3), None],
       thorough_only: false,
     },
     Harness { name: "H5 month stepping across years from three threads", threads: vec![vec![Q::MonthNext(1, 12, 1), a], vec![Q::MonthNext(2, 1, -1), b], vec![Q::YearMonths(1)]], bounds: vec![Some(0), Some(1), Some(2), Some(3)], thorough_only: true },
+    Harness {
+      name: "H7 a three-call history in one thread races a year listing and an eight-char query",
+      threads: vec![vec![a, Q::LunarDayNew(11, 2, 31), b], vec![Q::YearMonths(11)], vec![Q::EightChar(11, 3, 1, 23)]],
+      bounds: vec![Some(0), Some(1), Some(2), Some(3)],
+      thorough_only: true,
+    },
     Harness { name: "H6 four threads x one colliding request", threads: vec![vec![a], vec![b], vec![Q::Month(1, 11)], vec![Q::Month(11, 1)]], bounds: vec![Some(0), Some(1), Some(2), None], thorough_only: true },
   ]
 }
@@ -268,7 +274,7 @@ fn main() {
     }
     let nreq: u64 = h.threads.iter().map(|t| t.len() as u64).sum();
     for &b in &h.bounds {
-      if quick && b.is_none() && h.threads.len() > 2 {
+      if quick && (b.is_none() || b.unwrap_or(0) >= 3) && h.threads.len() > 2 {
         continue;
       }
       if Instant::now() >= deadline {
